@@ -6,6 +6,6 @@ env = dict(os.environ, GOFLAGS="-mod=mod", GOPROXY="off", GOSUMDB="off", GOTOOLC
 h = os.path.join(V, "harness")
 if not os.path.exists(os.path.join(h, "go.sum")):
     open(os.path.join(h, "go.sum"), "w").write(open("/repo/go.sum").read())
-r = subprocess.run(["go", "vet", "-tags", "verif", "./..."], cwd=h, env=env)
+
 r2 = subprocess.run(["go", "test", "-tags", "verif", "-count=1", "-run", "^$", "./..."], cwd=h, env=env)
 sys.exit(0 if r2.returncode == 0 else 1)
